@@ -8,13 +8,20 @@ structure DSt where
   cfg : Cfg := ⟨1000, 100, 86400000000, false, fun _ => .ret [], none, none⟩
   st : State := {}
 
-/-- the scripted adversary: behaviour is a function of the item's content code -/
+/-- the scripted adversary: behaviour is a function of the item's content code.  0 raises; 1 hands back a falsy value;
+    2 / 3 one / two keys (dict or list of pairs); 4 a truthy value `dict.update` cannot merge at all (int, str, object);
+    5 / 7 a value whose merge fails after one / two keys went in (generator raising part-way, list with a malformed
+    pair); 6 one key through an unusual but mergeable type (generator, iterator, mapping object, dict subclass) -/
 def scripted (it : Item) : Out :=
-  match it.content % 4 with
+  match it.content % 8 with
   | 0 => .raise
   | 1 => .ret []
   | 2 => .ret [2000 + it.id]
-  | _ => .ret [2000 + it.id, 1999]
+  | 3 => .ret [2000 + it.id, 1999]
+  | 4 => .bad []
+  | 5 => .bad [2000 + it.id]
+  | 6 => .ret [2000 + it.id]
+  | _ => .bad [2000 + it.id, 1999]
 
 def tyOf : String → WType
   | "mis" => .misfolded | "exp" => .expired | "fop" => .failedOp | "orp" => .orphaned | _ => .toxic
@@ -49,9 +56,16 @@ def dump (s : State) : String :=
 
 def optInt (s : String) : Option Int := if s = "none" then none else some (intD s)
 
+def isBad (cfg : Cfg) (it : Item) : Bool :=
+  match (digestOne cfg it).1 with
+  | .bad _ => true
+  | _ => false
+
 def ingestTags (cfg : Cfg) (s : State) (s' : State) (o : Obs) : List String :=
   let em := if s.queue.length ≥ cfg.maxQ then (if s.queue.length / 2 = 0 then ["ingest:capacity-noop"] else
-      ["ingest:emergency"] ++ (if s'.emLogged > s.emLogged then ["ingest:emergency-dropped"] else [])) else []
+      ["ingest:emergency"] ++ (if s'.emLogged > s.emLogged then ["ingest:emergency-dropped"] else []) ++
+      (if (s.queue.take (s.queue.length / 2)).any (isBad cfg) then ["ingest:emergency-unmergeable-counted"] else []))
+    else []
   let qa := (enqueue cfg s 0 .expired 0 .now).queue.length
   let au := match o with
     | .hang => ["ingest:hang"]
@@ -70,6 +84,8 @@ def doOp (d : DSt) (op : Op) : DSt × String :=
         | none => "digest:none"
         | some k => if k = 0 then "digest:zero" else if 0 < k then "digest:pos" else "digest:neg"] ++
       (if s'.reported > d.st.reported then ["digest:errors"] else []) ++
+      (if (d.st.queue.take (sliceCount d.st.queue.length k)).any (isBad d.cfg) then ["digest:unmergeable-result"]
+        else []) ++
       (if d.st.queue.isEmpty then ["digest:empty"] else [])
     | .autophagy => [match o with
         | .raised => "autophagy:raises-on-aware-timestamp"
